@@ -17,6 +17,14 @@ from pysph.sph.scheme import WCSPHScheme, TVFScheme
 CASE = {}
 
 
+def var_h(n, h0, seedvals, amp=0.3):
+    """per-particle smoothing lengths h0*(1 +- amp) (multi-resolution
+    input: tree algorithms prune with per-node maxima of h)"""
+    k = len(seedvals)
+    return h0 * (1.0 + amp * 2.0 * np.array(
+        [seedvals[(7 * i + 2) % k] for i in range(n)]))
+
+
 def lattice(n, dx, jit, seedvals, x0=0.0, y0=0.0):
     x, y = np.mgrid[0:n, 0:n]
     x = x.ravel() * dx + x0 + 0.5 * dx
@@ -45,7 +53,9 @@ class Drop(Application):
         x, y = lattice(n, dx, 0.2, CASE['vals'])
         pa = get_particle_array(name='fluid', x=x, y=y,
                                 m=np.ones_like(x) * dx * dx,
-                                h=np.ones_like(x) * 1.3 * dx,
+                                h=var_h(len(x), 1.3 * dx, CASE['vals'])
+                                if CASE.get('varh') else
+                                np.ones_like(x) * 1.3 * dx,
                                 rho=np.ones_like(x))
         pa.u[:] = -2.0 * (x - x.mean())
         pa.v[:] = 2.0 * (y - y.mean())
@@ -71,7 +81,9 @@ class Column(Application):
         x, y = lattice(n, dx, 0.15, CASE['vals'])
         fluid = get_particle_array(name='fluid', x=x, y=y,
                                    m=np.ones_like(x) * dx * dx,
-                                   h=np.ones_like(x) * 1.3 * dx,
+                                   h=var_h(len(x), 1.3 * dx, CASE['vals'])
+                                   if CASE.get('varh') else
+                                   np.ones_like(x) * 1.3 * dx,
                                    rho=np.ones_like(x))
         fluid.u[:] = 0.5 * np.sin(3 * y)
         xs, ys = np.mgrid[-3:n + 3, -3:0]
